@@ -141,6 +141,54 @@ class Ctx:
         return 1 if self.violations else 0
 
 
+SPEC_OF_KIND = {'op': 'TraceOps', 'opc': 'TraceOps', 'call': 'TraceOps', 'subst': 'TraceOps', 'relabel': 'TraceOps', 'mix': 'TraceOps',
+                'resolve': 'TraceOps', 'bcast': 'TraceOps', 'getitem': 'TraceOps', 'setitem': 'TraceOps', 'cert': 'TraceOps',
+                'table': 'TraceAlgebra', 'reject': 'TraceAlgebra', 'construct': 'TraceConstruct', 'poly': 'TracePolynomial',
+                'matrixrep': 'TraceMatrix', 'exprmat': 'TraceMatrix', 'widget': 'TraceGraph'}
+HEADERLESS = {'TraceAlgebra', 'TraceConstruct', 'TracePolynomial', 'TraceMatrix'}
+
+
+def replay(pid, path):
+    """Re-judge a recorded violation: (1) operator events are RE-EXECUTED on the current tree (the event is
+    regenerated from its configuration, operator and key patterns) and judged again by TLC; (2) every other
+    kind of event is re-validated as recorded.  Exit 1 and a VIOLATION line if TLC still rejects."""
+    obj = json.load(open(path))
+    rp = obj.get('replay', {})
+    ev = rp.get('event')
+    work = os.path.join(VERIF, '.work', pid + '_replay')
+    shutil.rmtree(work, ignore_errors=True)
+    os.makedirs(work)
+    tf = os.path.join(work, 'replay.ndjson')
+    if not ev or 'kind' not in ev:
+        print(f'replay of {path}: this violation is a whole session / table; re-run the check to re-execute it:')
+        print(f'  checks/check.py {pid} --tier quick    (what: {obj.get("what", "")[:300]})')
+        return 2
+    spec = SPEC_OF_KIND.get(ev['kind'])
+    header = rp.get('trace_header') or {'kind': 'cfg', 'u': rp.get('u') or ev.get('u')}
+    reexecuted = False
+    if ev['kind'] == 'op' and header.get('u') is not None and all(all(len(c) == 1 and c[0][0] == 1 and len(c[0][1]) == 1 for c in a['coefs']) if isinstance(a['coefs'], list) and all(isinstance(c, list) for c in a['coefs']) else False for a in ev['args']):
+        import drive_ops
+        opts = {k: v for k, v in header.get('opts', {}).items() if v not in ('', False) or k == 'cse'}
+        job = {'u': header['u'], 'opts': opts, 'cases': [[ev['op'], [a['keys'] for a in ev['args']], ev['params']]],
+               'out': tf, 'prefix': 'replay', 'fresh': True}
+        drive_ops.run_job(job)
+        reexecuted = True
+    else:
+        with open(tf, 'w') as f:
+            if spec not in HEADERLESS:
+                f.write(json.dumps(header) + '\n')
+            f.write(json.dumps(ev) + '\n')
+    r = tlc.run_trace(spec + '.tla', spec + '.cfg', tf, work)
+    how = 're-executed on the current tree' if reexecuted else 're-validated as recorded'
+    if r['rejects']:
+        for eid, clause in r['rejects']:
+            print(f'VIOLATION property={pid} replay={path}')
+            print(f'  {how}: TLC rejects event {eid}: {clause}')
+        return 1
+    print(f'replay of {path}: {how}; TLC accepts the event')
+    return 0
+
+
 def main(pid, run):
     """Entry point of a check script: run(ctx) does the work and returns ctx.finish(...)."""
     import argparse
@@ -150,6 +198,8 @@ def main(pid, run):
     ap.add_argument('--replay', default=None)
     a = ap.parse_args()
     try:
+        if a.replay:
+            sys.exit(replay(pid, a.replay))
         ctx = Ctx(pid, a.tier, a.seed)
         ctx.replay = a.replay
         rc = run(ctx)
